@@ -54,3 +54,16 @@ struct Sm64
 inline bool mine(const Ctx &c, uint64_t i) { return (int)(i % (uint64_t)c.nshards) == c.shard; }
 
 std::string describe_child(const ChildResult &r);
+
+// ---- shared with the harness entry point / fuzz targets ----
+struct Shared
+{
+  volatile uint64_t evals;
+  volatile uint32_t len;
+  char text[1 << 20];
+};
+extern Shared *g_sh;
+void set_current(const Case &c);
+void load_known(const std::string &path);
+std::string write_replay(const Ctx &ctx, const Case &c, const Verdict &v, const char *kind);
+std::vector<std::string> list_props();
